@@ -26,7 +26,7 @@ BUDGET = {
 }
 REQUIRED_PROBES = ["unary", "sstream", "cstream", "bidi", "void_output", "foreign_request", "form_none", "form_dict",
                    "form_msg", "retried_identical_payload", "concurrent_callers", "crossing_replies", "stream_cut",
-                   "second_client_same_process", "keyword_rpc", "async_stream", "presence_only_request"]
+                   "second_client_same_process", "keyword_rpc", "async_stream", "presence_only_request", "cancelled_mid_call"]
 ASSUMPTIONS = ["client-streaming and bidi calls are not driven through retried attempts (a consumed request iterator "
                "cannot be replayed; outside the property)"]
 
@@ -89,6 +89,9 @@ def gen_scenarios(spec, rng, n):
         sc = {"client": client, "actors": [a for a in actors if a["ops"]], "jitter_default": 0.0}
         if nact > 1 and rng.random() < 0.5:
             sc["clients"] = "per_actor"
+        if client == "async" and len(sc["actors"]) > 1 and rng.random() < 0.2:
+            # fault: one caller's task is cancelled at an arbitrary instant; the OTHER callers' calls must be unaffected
+            sc["cancels"] = [{"actor": rng.randrange(len(sc["actors"])), "at": rng.choice([0.0, 0.001, 0.005, 0.02, 0.06, 0.15])}]
         out.append(sc)
     return out
 
@@ -225,7 +228,11 @@ def judge_op(spec, codec, scenario, op, evs, probes):
             continue
         final = o
         break
-    if len(attempts) != exp_n:
+    if outcome["k"] == "cancelled":
+        _bump(probes, "cancelled_mid_call")
+        if len(attempts) > exp_n:
+            return V("attempt_count", f"{len(attempts)} call(s) on the channel before the caller was cancelled, at most {exp_n} expected")
+    elif len(attempts) != exp_n:
         return V("attempt_count", f"{len(attempts)} call(s) on the channel, expected exactly {exp_n} "
                  f"({'one per invocation' if exp_n == 1 else 'one per scripted retryable failure plus one'})")
     if k in ("unary", "sstream"):
@@ -251,6 +258,8 @@ def judge_op(spec, codec, scenario, op, evs, probes):
         if a["n"] > 1:
             _bump(probes, "retried_identical_payload")
     # ---- outcome
+    if outcome["k"] == "cancelled" and (k in ("unary", "cstream") or not attempts or attempts[-1]["n"] not in servers):
+        return []
     if final.get("retry_deadline"):
         if outcome["k"] != "raise" or outcome.get("cls") != "RetryError":
             return V("wrong_exception", f"the retry deadline {retry_T}s passed during the scripted outage; expected RetryError, got {outcome['k']} {outcome.get('cls')}")
@@ -289,6 +298,8 @@ def judge_op(spec, codec, scenario, op, evs, probes):
             continue
         if not isinstance(it, dict) or "msg" not in it or codec.parse(m["output"], bytes.fromhex(it["msg"])) != codec.parse(m["output"], bytes.fromhex(sb)):
             return V("stream_item", f"item {i} differs from what the server sent (order or content)")
+    if outcome["k"] == "cancelled":
+        return []
     if cut and cut["after"] <= len(sent):
         _bump(probes, "stream_cut")
         exp = engine.CODE_TO_EXC[cut["code"]].__name__
